@@ -3,7 +3,7 @@
    Separate extraction: one OCaml module per Coq file, written to Extract/ml/. *)
 From Coq Require Import NArith ZArith List.
 From Coq Require Extraction ExtrOcamlBasic.
-From Verif Require Import Kernel.Varint Model.PlainFrame Model.NoiseFrame Model.WireSpec Model.Conn Model.Keepalive Model.Client Model.FloatFix Model.Convert Model.CommandIR Generated.GenCommands.
+From Verif Require Import Kernel.Varint Model.PlainFrame Model.NoiseFrame Model.WireSpec Model.Conn Model.Keepalive Model.Client Model.FloatFix Model.Convert Model.CommandIR Generated.GenCommands Model.Resolver.
 Extraction Language OCaml.
 Cd "Extract/ml".
 Separate Extraction N.add N.mul N.of_nat N.to_nat N.eqb Z.add Z.mul Z.opp
@@ -14,5 +14,6 @@ Separate Extraction N.add N.mul N.of_nat N.to_nat N.eqb Z.add Z.mul Z.opp
   Keepalive.ka_sim Keepalive.ka_init
   Client.cstep Client.client_init
   FloatFix.fix_float Convert.from_pb Convert.conv
-  CommandIR.exec CommandIR.get CommandIR.wf GenCommands.commands.
+  CommandIR.exec CommandIR.get CommandIR.wf GenCommands.commands
+  Resolver.resolve Resolver.zrun.
 Cd "../..".
